@@ -1,4 +1,5 @@
 import BddVerif.Props.C19
+import BddVerif.Lemmas.TraitTable
 #print axioms B.Props.C19.sched_irrelevant
 #print axioms B.Props.C19.pool_unchanged
 #print axioms B.Props.C19.deterministic
@@ -18,3 +19,5 @@ import BddVerif.Props.C19
 #print axioms B.Props.C19.deterministic_translated
 #print axioms B.Props.C19.pool_unchanged_translated
 #print axioms B.Props.C19.prefix_at_any_time_translated
+#print axioms B.TraitTable.key_types_derive_eq_hash
+#print axioms B.TraitTable.iterators_define_only_next
